@@ -61,19 +61,21 @@ def near_pair(rng):
     return P, P + bytes(rng.randrange(256) for _ in range(rng.choice([1, 7, 100])))
 
 
-def _differ(rng, cfg, kinds):
-    """apply 1..3 configuration differences to node 1; returns the list applied"""
+def _differ(rng, cfg, kinds, focus=False):
+    """apply 1..3 configuration differences to node 1; returns the list applied.
+    focus=True: only the near-miss classes"""
     a, b = cfg["nodes"][0], cfg["nodes"][1]
     done = []
+    fr = (lambda p: 1.0) if focus else (lambda p: p)
     for kind in kinds:
-        if kind == "pw" and rng.random() < 0.12:
+        if kind == "pw" and rng.random() < (0.3 if focus else 0.12):
             x, y = near_pair(rng)
             for nd in cfg["nodes"][:2]:
                 nd["pw"] = x.hex()
             b["pw"] = y.hex()
             done.append("pw-pair")
             continue
-        if kind == "ids" and rng.random() < 0.12:
+        if kind == "ids" and rng.random() < (0.25 if focus else 0.12):
             x, y = near_pair(rng)
             key = "idS" if a["cls"] == "S" else rng.choice(["idA", "idB"])
             for nd in cfg["nodes"][:2]:
@@ -82,7 +84,7 @@ def _differ(rng, cfg, kinds):
             done.append(key + "-pair")
             continue
         if kind == "pw":
-            if rng.random() < 0.3:
+            if rng.random() < fr(0.3):
                 v = near_miss(rng, bytes.fromhex(a["pw"])).hex()
             else:
                 v = a["pw"]
@@ -93,7 +95,7 @@ def _differ(rng, cfg, kinds):
         elif kind == "ids":
             if a["cls"] == "S":
                 v = a.get("idS", "")
-                if rng.random() < 0.4:
+                if rng.random() < fr(0.4):
                     v = near_miss(rng, bytes.fromhex(v)).hex()
                 while v == a.get("idS", ""):
                     v = gen.gen_bytes(rng).hex()
@@ -101,7 +103,7 @@ def _differ(rng, cfg, kinds):
                 done.append("idS")
             else:
                 ida, idb = bytes.fromhex(a.get("idA", "")), bytes.fromhex(a.get("idB", ""))
-                c = rng.randrange(10)
+                c = rng.randrange(10) if not focus else rng.randrange(6, 10)
                 if c >= 8:
                     # the pair (x SEP y, z) and the pair (x, y SEP z): equal once joined with SEP
                     sep = rng.choice([b"\x00", b"\x00", b":", b"|", b",", b" ", b"/"])
@@ -201,12 +203,18 @@ def generate(rng, tier="quick"):
         if rng.random() < 0.5:
             extra["pw"] = gen.gen_bytes(rng).hex()
         cfg["nodes"].append(extra)
-    mode = rng.choice(["config", "config", "fault", "fault", "fault", "both", "coord", "coord"])
+    mode = rng.choice(["config", "config", "fault", "fault", "fault", "both", "coord", "coord", "nearmiss"])
     applied = []
-    if mode in ("config", "both"):
+    pc = rng.choice([0.0, 0.0, 0.3, 0.6, 0.9])
+    if mode == "nearmiss":
+        # focused: ONE near-miss difference (a string a normalisation, re-split, cap or pre-hash
+        # would confuse with the other end's) and nothing else, with both ends going through
+        # persist/restore - that is where such confusions live
+        applied = _differ(rng, cfg, [rng.choice(["pw", "ids", "ids"])], focus=True)
+        pc = 0.9
+    elif mode in ("config", "both"):
         kinds = rng.sample(["pw", "ids", "pset"], rng.choice([1, 1, 2, 3]))
         applied = _differ(rng, cfg, kinds)
-    pc = rng.choice([0.0, 0.0, 0.3, 0.6, 0.9])
     lives = [gen.gen_lifecycle(rng, 0, 2, pc), gen.gen_lifecycle(rng, 1, 2, pc)]
     if third:
         lives.append([{"op": "boot", "n": 2}, {"op": "start", "n": 2}])
